@@ -453,6 +453,18 @@ def bool_atom(c):
     e, rel, vals = c[0], c[1], c[2]
     if e[0] == "discr":
         b = strip(e[1])
+        if b[0] == "call" and (b[1].endswith("Ord>::cmp") or b[1].endswith("Ord::cmp") or _re.search(r"impl core::cmp::Ord for \w+>::cmp$", b[1])) and len(b[2]) == 2:
+            # `match a.cmp(&b) { Less => .., Equal => .., Greater => .. }`: a test on the Ordering is a comparison of a and b
+            # (discriminants: Less = -1 in whatever width it is printed, Equal = 0, Greater = 1)
+            got = set()
+            for v in vals:
+                v = int(v)
+                got.add(v if v in (0, 1) else -1)
+            allowed = got if rel == "in" else ({-1, 0, 1} - got)
+            op = {frozenset({-1}): "Lt", frozenset({0}): "Eq", frozenset({1}): "Gt", frozenset({-1, 0}): "Le", frozenset({0, 1}): "Ge",
+                  frozenset({-1, 1}): "Ne"}.get(frozenset(allowed))
+            if op:
+                return (op, b[2][0], b[2][1])
         if b[0] == "call" and b[1].endswith("::checked_sub") and len(b[2]) == 2 and tuple(vals) in ((0,), (1,)):
             some = (tuple(vals) == (1,)) == (rel == "in")
             return ("Ge" if some else "Lt", b[2][0], b[2][1])
